@@ -468,6 +468,7 @@ class GenCfg:
     inheritance: bool = False
     docs: bool = False
     foreign: bool = False
+    private_refs: bool = False  # signatures may use classes with a private name (of any module) as types
     local_foreign: bool = False  # plus a generated library next to the package (sub-modules, upper-case module name)
     local_foreign_lower: bool = False  # ... and its lower-case class names (they change under naming conversion)
     private_bases: bool = False  # public classes derive from private classes of their module and override some methods
@@ -507,7 +508,7 @@ def random_pkg(rng, cfg: GenCfg) -> Pkg:
             elif kind == "cls":
                 c = _random_cls(rng, names, priv, public_classes, m, cfg, depth=0)
                 m.decls.append(c)
-                if not priv:
+                if not priv or cfg.private_refs:
                     public_classes.append((m, c.name))
             else:
                 epriv = priv and cfg.private_enums
